@@ -5,6 +5,7 @@ package lab
 import (
 	"bytes"
 	"encoding/hex"
+	"errors"
 	"fmt"
 	"io"
 	"os"
@@ -241,6 +242,63 @@ func (e EOFSeeker) Read(p []byte) (int, error) {
 	return n, err
 }
 func (e EOFSeeker) Seek(off int64, whence int) (int64, error) { return e.R.Seek(off, whence) }
+
+// Src is what the fault wrapper and a bytes.Reader both offer.
+type Src interface {
+	io.Reader
+	io.Seeker
+	io.ReaderAt
+}
+
+// ErrInjectedIO is the error a FailSrc reports.
+var ErrInjectedIO = errors.New("injected: input/output error")
+
+// FailSrc delivers the bytes below offset N and fails with ErrInjectedIO on any access to a byte
+// at or beyond N; it never reports io.EOF (N is below the size): a source that breaks mid-way.
+type FailSrc struct {
+	R  *bytes.Reader
+	N  int64
+	Hi int64 // when > N: only the window [N, Hi) is broken (ReadAt only), bytes beyond it are readable again
+}
+
+func (f *FailSrc) Read(p []byte) (int, error) {
+	pos := f.R.Size() - int64(f.R.Len())
+	if len(p) == 0 {
+		return 0, nil
+	}
+	if pos >= f.N {
+		return 0, ErrInjectedIO
+	}
+	if pos+int64(len(p)) > f.N {
+		p = p[:f.N-pos]
+	}
+	n, err := f.R.Read(p)
+	if err == io.EOF {
+		err = ErrInjectedIO
+	}
+	return n, err
+}
+func (f *FailSrc) Seek(off int64, whence int) (int64, error) { return f.R.Seek(off, whence) }
+func (f *FailSrc) ReadAt(p []byte, off int64) (int, error) {
+	if f.Hi > f.N {
+		if off+int64(len(p)) <= f.N || off >= f.Hi {
+			return f.R.ReadAt(p, off)
+		}
+		if off >= f.N {
+			return 0, ErrInjectedIO
+		}
+		n, _ := f.R.ReadAt(p[:f.N-off], off)
+		return n, ErrInjectedIO
+	}
+	if off >= f.N {
+		return 0, ErrInjectedIO
+	}
+	if off+int64(len(p)) > f.N {
+		n, _ := f.R.ReadAt(p[:f.N-off], off)
+		return n, ErrInjectedIO
+	}
+	return f.R.ReadAt(p, off)
+}
 
 // CountingReader counts bytes delivered and calls.
 type CountingReader struct {
